@@ -9,7 +9,7 @@ using jm::JVal;
 using namespace sonic_json;
 
 static vf::Counter c_lit("literals-judged"), c_ok("literal:well-formed"), c_bad("literal:malformed"), c_val("role:value"), c_key("role:dom-key"),
-    c_od("role:on-demand-key"), c_od_rawname("role:on-demand-lookup-by-undecoded-spelling-of-an-escaped-key"), c_od_err("on-demand:malformed-key-reported-error"), c_od_raw("on-demand:malformed-key-lookup-reported-success"),
+    c_od("role:on-demand-key"), c_od_rawname("role:on-demand-lookup-by-undecoded-spelling-of-an-escaped-key"), c_od_rawbad("role:on-demand-lookup-of-a-malformed-key-by-its-raw-bytes"), c_od_err("on-demand:malformed-key-reported-error"), c_od_raw("on-demand:malformed-key-lookup-reported-success"),
     c_sur_ok("surrogate:valid-pair"), c_sur_bad("surrogate:pairing-fault");
 
 struct Exact {
@@ -117,6 +117,22 @@ static void judge_literal(const std::string& raw, size_t pad, const char* family
     if (res.Error() == kErrorNone)
       vf::violation("on-demand-found-key-by-its-undecoded-spelling:" + len_class(raw.size()),
                     std::string(family) + ": key literal " + vf::printable(lit, 120) + " looked up with the " + std::to_string(raw.size()) + " raw bytes between its quotes -> success");
+  }
+  // ---- role 3c: a malformed key literal looked up by its own raw bytes: a rejected literal cannot name a member
+  if (!wf && raw != "zz" && raw.find('"') == std::string::npos) {
+    std::string text = "{" + ws + "\"zz\":[0]," + lit + ":17 }";
+    vf::witness(text);
+    vf::eval();
+    c_od_rawbad.add();
+    Exact b(text);
+    StringView target("sentinel");
+    JsonPointer path;
+    path.push_back(JsonPointerNode(raw));
+    ParseResult res = GetOnDemand(StringView(b.p, b.n), path, target);
+    if (res.Error() == kErrorNone)
+      vf::violation("on-demand-malformed-key-matched-by-its-raw-bytes:" + fault_sig(f),
+                    std::string(family) + ": key literal " + vf::printable(lit, 120) + " (rejected by Parse) looked up with its raw bytes -> success, slice " +
+                        vf::printable(std::string(target.data(), target.size()), 40));
   }
   // ---- role 3: on-demand key (the scanner works on the caller's unpadded buffer)
   {
